@@ -183,7 +183,13 @@ def _selfdoc_gap(d):
 def classify(kind, sig, det, open_ids):
     """id of the open finding that explains this isolated failure (every necessary edit satisfies
     the same finding's predicate), or None."""
-    if kind in ("not-idempotent", "crash", "cli") or not det:
+    if kind in ("crash", "cli") or not det:
+        return None
+    if kind == "not-idempotent":
+        # only the raw body of a block macro: it is not raw to the formatter (F04), so stray characters in it
+        # (a backslash, a lone quote) are re-spaced on every pass
+        if all(d["ctx"] == "macro-block" for d in det) and "C17-F04" in open_ids:
+            return "C17-F04"
         return None
     ids = {edit_finding(d) for d in det}
     if len(ids) == 1:
